@@ -237,6 +237,25 @@ func checkC10(c *Ctx) {
 		Infra("CliRun with WaitsForSecondPipeline=FALSE should refute AllOrNothing")
 	}
 	c.Ev.Extra["non_vacuity"] = "CliRun with WaitsForSecondPipeline=FALSE (the code at 446285c) refutes AllOrNothing"
+	// the second pipeline as communicating processes: termination, in-order delivery, error surfacing
+	pipeCfg := func(n, cap int, waits bool) string {
+		return fmt.Sprintf("SPECIFICATION Spec\nCONSTANTS\n  N = %d\n  Cap = %d\n  ConsumerWaits = %s\nINVARIANTS AllOrNothing InOrder\nPROPERTY NeverHangs\nCHECK_DEADLOCK FALSE\n", n, cap, tlaBool(waits))
+	}
+	shapes := [][2]int{{2, 1}, {3, 2}}
+	if !quick(c) {
+		shapes = append(shapes, [2]int{4, 2}, [2]int{4, 1}, [2]int{5, 3})
+	}
+	for _, sh := range shapes {
+		res, err := tlcrun.Run(tlcrun.Job{Module: "Pipeline", Cfg: pipeCfg(sh[0], sh[1], true), Workers: 4})
+		if err != nil || !res.Completed {
+			Infra("Pipeline N=%d Cap=%d: %v\n%s\n%s", sh[0], sh[1], err, res.ErrorText, res.Tail)
+		}
+		c.AddTLC(fmt.Sprintf("Pipeline N=%d Cap=%d", sh[0], sh[1]), res.Generated, res.Distinct, res.Wall, "AllOrNothing, InOrder, NeverHangs (weak fairness); cat-file may die at any point")
+	}
+	res, _ = tlcrun.Run(tlcrun.Job{Module: "Pipeline", Cfg: pipeCfg(2, 1, false), Workers: 4})
+	if res == nil || res.Violated != "AllOrNothing" {
+		Infra("Pipeline with ConsumerWaits=FALSE should refute AllOrNothing")
+	}
 
 	env := newScanEnv(c, true, false)
 	e := &c10Env{c: c, env: env, fake: buildFakeGit(c)}
